@@ -54,8 +54,19 @@ func vT16Serve(srv *Server) {
 
 func vT16Conn(srv *Server, r int) {
 	var input []byte
-	for i := 0; i < r; i++ {
-		input = append(input, vMsgBytes('Q', vCStr([]byte("q")))...)
+	if r < 0 {
+		// scenario 2: an extended-query error (Bind of an unknown statement), a
+		// pipelined message that is discarded, Sync, then one simple query
+		input = vCat(
+			vMsgBytes('B', vCat(vCStr(nil), vCStr([]byte("nope")), vU16(0), vU16(0), vU16(0))),
+			vMsgBytes('E', vCat(vCStr(nil), vU32(0))),
+			vMsgBytes('S', nil),
+			vMsgBytes('Q', vCStr([]byte("q"))))
+		r = 4
+	} else {
+		for i := 0; i < r; i++ {
+			input = append(input, vMsgBytes('Q', vCStr([]byte("q")))...)
+		}
 	}
 	conn := vNewConn(input)
 	ses, rd, wr := vSession(srv, conn)
